@@ -16,7 +16,7 @@ CLAIMS = {
         ref="DESIGN.md §5 C01", tech=TECH_V + "; bounded executable stand-in (xsim) as counterexample generator and fallback, labelled bounded"),
     "C06": dict(
         text="Verus proves that Simulation::run maps UnprocessedMessages to Deadlock exactly when an observed mailbox is non-empty, listing exactly the non-empty observers with name and size in registration order, and to MessageLoss otherwise, for every observer vector and executor result (unit sim); and that every model added through SimInit::add_model or BuildContext::add_submodel, to any depth, gets exactly one mailbox observer registered under its qualified name (unit reg). Kani proves Queue::len (the observed size) exact when quiescent.",
-        note="that the count handed up by the executor equals sent minus received is decided only for the single-threaded executor and only within the bound of stand-in xexec (real ExecutorInner::run against scripted tasks, also nested); the counter moves in Sender::send / Receiver::recv are decided only within the bound of stand-in xchan; the multi-threaded executor's per-thread counters are not decided; ProtoModel::build touches the registries only through add_submodel (private fields); A-exec",
+        note="that the count handed up by the executor equals sent minus received is proved for the single-threaded executor's ExecutorInner::run (unit stexec: thread-locals as an explicit Tls value, the task loop abstracted; stand-in xexec supplies concrete scripts); the counter moves in Sender::send / Receiver::recv are decided only within the bound of stand-in xchan; the multi-threaded executor's per-thread counters are not decided; ProtoModel::build touches the registries only through add_submodel (private fields); A-exec",
         ref="DESIGN.md §5 C06", tech=TECH_VK + "; bounded executable stand-ins (xreg: registration and reports; xexec: the single-threaded executor's count; xchan: the counter moves of send / recv), labelled bounded"),
     "C07": dict(
         text="Verus proves: PriorityQueue is FIFO among equal keys (pq); scheduling inserts exactly one entry keyed (deadline, origin) (sched); a step puts all live same-(time, origin) entries into one task in queue order (sim); SeqFuture polls its futures strictly in push order (seqfut).",
@@ -36,7 +36,7 @@ CLAIMS = {
         ref="DESIGN.md §5 C10", tech=TECH_VK + "; bounded executable stand-ins (xsim, xsched) as counterexample generators, labelled bounded"),
     "C11": dict(
         text="Verus proves the mapping of every ExecutorError value by Simulation::run (Timeout, Panic with model name and payload, NoRecipient for SendError payloads), that every fatal error sets the terminated flag, and that step/step_until/process on a terminated simulation return Terminated without moving the time or entering the executor (unit sim); the ModelId given to each model task indexes that model's own qualified name (unit reg).",
-        note="that the executors produce the right ExecutorError is decided only for the single-threaded executor's run loop and only within the bound of stand-in xexec (panic precedence, model id, payload); the multi-threaded executor and the timeout thread are not decided; the executor stub may become unusable after a failed run (finding F6), so every public operation must check is_terminated before touching it",
+        note="that the executors produce the right ExecutorError is proved for the single-threaded executor's ExecutorInner::run (unit stexec: Panic iff a task panicked, with its model id and payload, whatever the counters say; stand-in xexec supplies concrete scripts); the multi-threaded executor and the timeout thread are not decided; the executor stub may become unusable after a failed run (finding F6), so every public operation must check is_terminated before touching it",
         ref="DESIGN.md §5 C11", tech=TECH_V + "; bounded executable stand-ins (xsim, xreg as counterexample generators and fallback; xexec for the single-threaded executor's report), labelled bounded"),
     "C12": dict(
         text="Kani proves, per capacity (1,2 quick; 1..5 thorough) and for every representation-invariant-satisfying state (any sequence count, fill level, open/closed) - i.e. for histories of any length - the sequential contracts of Queue::{push,pop + MessageBorrow::drop,close,len,next_queue_pos}: never more than capacity messages, FIFO, each message exactly once, len exact, Full only when full, after close pushes fail and accepted messages stay receivable. The concurrency half of the property (linearizability under multi-producer interleavings, no lost wake-ups in channel.rs) is NOT decided.",
